@@ -324,3 +324,15 @@ def oracle(case):
            lambda: 'annotation map %r, expected %r' % (got_a, exp['attrs']))
     for k, v in got_a.items():
         expect(isinstance(v.get('weight'), float), 'strip:annotation-type', lambda: 'weight of atom %s is %r' % (k, v.get('weight')))
+    # what a caller did to an earlier result (the resolver consumes descriptors from such lists) must not
+    # show up when the same text is read again
+    for lst in dict(bonding).values():
+        del lst[:]
+    for d in dict(attrs).values():
+        d.clear()
+    dict.clear(ez)
+    smile2, bonding2, ez2, attrs2 = sut(strip_bonding_descriptors, case['input'])
+    again = (smile2, {str(k): list(v) for k, v in dict(bonding2).items() if v}, {str(k): v for k, v in dict(ez2).items()},
+             {str(k): dict(v) for k, v in dict(attrs2).items()})
+    expect(again == (exp['clean'], exp['bonding'], exp['ez'], exp['attrs']), 'strip:second-read-differs',
+           lambda: 'after the first result was emptied by the caller a second read returns %r' % (again,))
